@@ -24,7 +24,19 @@ func main() {
 	tier := flag.String("tier", "quick", "quick|thorough")
 	out := flag.String("out", "", "output directory")
 	replay := flag.String("replay", "", "file of op lines to execute instead of generating")
+	child := flag.String("childexec", "", "internal: execute op lines from stdin for this property (crash isolation)")
 	flag.Parse()
+	if *child != "" {
+		mk, ok := props[strings.ToUpper(*child)+"-CHILD"]
+		if !ok {
+			mk, ok = props[strings.ToUpper(*child)]
+		}
+		if !ok {
+			os.Exit(2)
+		}
+		hx.ChildLoop(mk())
+		return
+	}
 	mk, ok := props[strings.ToUpper(*prop)]
 	if !ok || *out == "" {
 		fmt.Fprintln(os.Stderr, "usage: samharness -prop Cxx -out DIR [-seed N] [-tier T] [-replay FILE]")
